@@ -62,9 +62,12 @@ def rule_a(ctx, overrides):
   idx = ctx.index
   for c, m in overrides:
     ctors = []
+    fresh = {nm for st in ast.walk(m.node) if isinstance(st, ast.Assign) and isinstance(st.value, ast.Call)
+             and (A.call_name(st.value) or '') in ('object.__new__', 'self.__class__.__new__', c.name + '.__new__')
+             for nm in A.assigned_names(st.targets[0])}
     for call in A.calls_in(m.node):
       d = A.call_name(call) or ''
-      if d in (c.name, 'self.__class__', 'new_value.__init__'):
+      if d in {c.name, 'self.__class__'} | {f'{nm}.__init__' for nm in fresh}:
         ctors.append(call)
     if not ctors:
       continue   # delegating override (rule c)
@@ -136,7 +139,11 @@ def rule_c(ctx, overrides):
     if c.fq in (S.LIST, S.DICT, S.OBJECT):
       continue
     sup = [x for x in A.calls_in(m.node) if A.call_name(x) == 'super()._sym_clone']
-    ctor = [x for x in A.calls_in(m.node) if (A.call_name(x) or '') in (c.name, 'self.__class__', 'new_value.__init__')]
+    fresh = {nm for st in ast.walk(m.node) if isinstance(st, ast.Assign) and isinstance(st.value, ast.Call)
+             and (A.call_name(st.value) or '') in ('object.__new__', 'self.__class__.__new__', c.name + '.__new__')
+             for nm in A.assigned_names(st.targets[0])}
+    ctor = [x for x in A.calls_in(m.node) if (A.call_name(x) or '') in
+            {c.name, 'self.__class__'} | {f'{nm}.__init__' for nm in fresh}]
     rets = [A.unparse(n.value) for n in ast.walk(m.node) if isinstance(n, ast.Return) and n.value is not None]
     problems = []
     if sup:
